@@ -302,6 +302,7 @@ def run(rep, tier):
         clause_g(facts, rep)
         clause_h(facts, rep)
         clause_i(facts, rep)
+        clause_j(facts, rep)
     rep.trust('clang 14 front end and constant evaluator', 'Python big integers / fractions', 'Clinger exact fast-path conditions',
               'simd_str2int contract: the digit count it stores never exceeds the requested count')
     rep.assumptions += [
@@ -851,3 +852,47 @@ def clause_i(facts, rep):
             rep.check(not bad, 'E2.trunc-set', f.qn, 'digit loop at %s: every body path adds the digit to the mantissa, sets the truncation flag, or handles only \'0\' (%d paths)' % (loc, len(paths)), loc,
                       'a path through blocks %s consumes a digit without accumulating it and without setting the truncation flag' % (bad[0] if bad else ''), facts.config)
     rep.require(n >= 3, 'C04.i: mantissa digit loops found: %d' % n)
+
+
+def clause_j(facts, rep):
+    """ParseFloatingNormalFast: the truncated 64x64 product may be trusted without the second (extended) multiply
+    only when the bits below the rounding position are neither all zero nor all one - otherwise the discarded low
+    product can carry into the rounding bit (exact ties and just-off-halfway values).  The mask is bound from
+    `bits = hi & MASK`, it must cover exactly the 64-54-1 = 9 bits below the rounding bit, and the guard on `bits`
+    is evaluated for every value 0..MASK: it may accept only 1..MASK-1."""
+    from ..narrowing import _eval as ev1
+    n = 0
+    for f in facts.functions:
+        if f.short != 'ParseFloatingNormalFast':
+            continue
+        rep.fn(f)
+        bvar = mask = None
+        for bid, i, st in f.stmts():
+            s_ = strip(st)
+            if s_ is not None and s_.get('k') == 'bin' and s_['op'] == '=' and strip(s_['l']).get('k') == 'ref':
+                r = strip(s_['r'])
+                if r is not None and r.get('k') == 'bin' and r['op'] == '&' and cval(r['r']) is not None and cval(r['r']) > 1 and strip(r['l']).get('k') == 'ref' and cval(r['l']) is None:
+                    m = cval(r['r'])
+                    if (m & (m + 1)) == 0 and m < (1 << 16):
+                        bvar, mask = strip(s_['l'])['id'], m
+        rep.require(bvar is not None, 'C04.j: low-bits variable of ParseFloatingNormalFast not bound')
+        if bvar is None:
+            continue
+        for bid, B in f.blocks.items():
+            t = B.get('term')
+            if not (t and t.get('cond') is not None and len(B['succs']) == 2):
+                continue
+            c = strip_expect(t['cond'])
+            ids = set(y.get('id') for y in walk(c) if y.get('k') == 'ref' and y.get('dk') in ('local', 'param') and y.get('cv') is None)
+            if ids != {bvar}:
+                continue
+            try:
+                acc = [v for v in range(0, mask + 1) if bool(ev1(c, {bvar: v}))]
+            except KeyError as ex:
+                raise AnalysisBroken('C04.j: guard on the low product bits not evaluable: %s' % ex)
+            n += 1
+            bad = [v for v in acc if v in (0, mask)]
+            rep.check(mask == (1 << 9) - 1 and not bad, 'E5.ambiguity-window', f.qn, show(c), locline(t['loc']),
+                      'mask 0x%x (must be 0x1ff); the single-multiply result is accepted for low bits %s - 0 and all-ones are the patterns where the discarded product can change the rounding' % (
+                          mask, [hex(v) for v in bad]), facts.config)
+    rep.require(n >= 1, 'C04.j: guard on the low product bits of ParseFloatingNormalFast not found')
